@@ -57,6 +57,17 @@ pub broadcast proof fn lemma_skip_zero(s: Seq<u8>)
 {
 	assert(skip(s, 0) =~= s);
 }
+pub broadcast proof fn lemma_be_u8_is_byte(s: Seq<u8>, o: int)
+	ensures #[trigger] be_u8(s, o) == s[o]
+{
+	reveal(be_u8);
+}
+pub broadcast proof fn lemma_skip_subrange(s: Seq<u8>, a: int, lo: int, hi: int)
+	requires 0 <= a, 0 <= lo <= hi, a + hi <= s.len(),
+	ensures #[trigger] skip(s, a).subrange(lo, hi) == s.subrange(a + lo, a + hi)
+{
+	assert(skip(s, a).subrange(lo, hi) =~= s.subrange(a + lo, a + hi));
+}
 pub proof fn lemma_skip_is_subrange(s: Seq<u8>, n: int)
 	ensures skip(s, n) == s.subrange(n, s.len() as int)
 {}
@@ -96,7 +107,43 @@ pub broadcast proof fn lemma_be_i32_skip(s: Seq<u8>, n: int, o: int)
 {
 	reveal(be_u8); reveal(be_i8); reveal(be_u16); reveal(be_i16); reveal(be_u32); reveal(be_i32);
 }
-pub broadcast group group_skip { lemma_skip_len, lemma_skip_index, lemma_be_u8_skip, lemma_be_i8_skip, lemma_be_u16_skip, lemma_be_i16_skip, lemma_be_u32_skip, lemma_be_i32_skip }
+pub broadcast proof fn lemma_be_u8_subrange(s: Seq<u8>, a: int, b: int, o: int)
+	requires 0 <= a, 0 <= o, a + o + 1 <= b, b <= s.len(),
+	ensures #[trigger] be_u8(s.subrange(a, b), o) == be_u8(s, a + o)
+{
+	reveal(be_u8); reveal(be_i8); reveal(be_u16); reveal(be_i16); reveal(be_u32); reveal(be_i32);
+}
+pub broadcast proof fn lemma_be_i8_subrange(s: Seq<u8>, a: int, b: int, o: int)
+	requires 0 <= a, 0 <= o, a + o + 1 <= b, b <= s.len(),
+	ensures #[trigger] be_i8(s.subrange(a, b), o) == be_i8(s, a + o)
+{
+	reveal(be_u8); reveal(be_i8); reveal(be_u16); reveal(be_i16); reveal(be_u32); reveal(be_i32);
+}
+pub broadcast proof fn lemma_be_u16_subrange(s: Seq<u8>, a: int, b: int, o: int)
+	requires 0 <= a, 0 <= o, a + o + 2 <= b, b <= s.len(),
+	ensures #[trigger] be_u16(s.subrange(a, b), o) == be_u16(s, a + o)
+{
+	reveal(be_u8); reveal(be_i8); reveal(be_u16); reveal(be_i16); reveal(be_u32); reveal(be_i32);
+}
+pub broadcast proof fn lemma_be_i16_subrange(s: Seq<u8>, a: int, b: int, o: int)
+	requires 0 <= a, 0 <= o, a + o + 2 <= b, b <= s.len(),
+	ensures #[trigger] be_i16(s.subrange(a, b), o) == be_i16(s, a + o)
+{
+	reveal(be_u8); reveal(be_i8); reveal(be_u16); reveal(be_i16); reveal(be_u32); reveal(be_i32);
+}
+pub broadcast proof fn lemma_be_u32_subrange(s: Seq<u8>, a: int, b: int, o: int)
+	requires 0 <= a, 0 <= o, a + o + 4 <= b, b <= s.len(),
+	ensures #[trigger] be_u32(s.subrange(a, b), o) == be_u32(s, a + o)
+{
+	reveal(be_u8); reveal(be_i8); reveal(be_u16); reveal(be_i16); reveal(be_u32); reveal(be_i32);
+}
+pub broadcast proof fn lemma_be_i32_subrange(s: Seq<u8>, a: int, b: int, o: int)
+	requires 0 <= a, 0 <= o, a + o + 4 <= b, b <= s.len(),
+	ensures #[trigger] be_i32(s.subrange(a, b), o) == be_i32(s, a + o)
+{
+	reveal(be_u8); reveal(be_i8); reveal(be_u16); reveal(be_i16); reveal(be_u32); reveal(be_i32);
+}
+pub broadcast group group_skip { lemma_skip_len, lemma_skip_index, lemma_skip_subrange, lemma_be_u8_is_byte, lemma_be_u8_skip, lemma_be_i8_skip, lemma_be_u16_skip, lemma_be_i16_skip, lemma_be_u32_skip, lemma_be_i32_skip, lemma_be_u8_subrange, lemma_be_i8_subrange, lemma_be_u16_subrange, lemma_be_i16_subrange, lemma_be_u32_subrange, lemma_be_i32_subrange }
 
 // byteorder::ReadBytesExt / std::io::Read on `&[u8]`
 pub trait ReadBytesExt: Sized {
@@ -158,9 +205,18 @@ impl<T> MutablePrimitiveArray<T> {
 	#[verifier::external_body]
 	pub fn with_capacity(capacity: usize) -> (r: Self) ensures r@.len() == 0 { unimplemented!() }
 	#[verifier::external_body]
-	pub fn push(&mut self, x: Option<T>) ensures final(self)@ == old(self)@.push(x) { unimplemented!() }
+	pub fn push(&mut self, x: Option<T>)
+		ensures final(self)@ == old(self)@.push(x),
+			final(self).values_spec().len() == old(self).values_spec().len() + 1,
+			final(self).values_spec().subrange(0, old(self).values_spec().len() as int) == old(self).values_spec(),
+			x is Some ==> final(self).values_spec() == old(self).values_spec().push(x->Some_0),
+	{ unimplemented!() }
 	#[verifier::external_body]
-	pub fn push_null(&mut self) ensures final(self)@ == old(self)@.push(None) { unimplemented!() }
+	pub fn push_null(&mut self)
+		ensures final(self)@ == old(self)@.push(None),
+			final(self).values_spec().len() == old(self).values_spec().len() + 1,
+			final(self).values_spec().subrange(0, old(self).values_spec().len() as int) == old(self).values_spec(),
+	{ unimplemented!() }
 	#[verifier::external_body]
 	pub fn len(&self) -> (r: usize) ensures r == self@.len() { unimplemented!() }
 	// values(): the dense value buffer; a null slot holds an unspecified value (arrow2 stores T::default())
@@ -176,6 +232,17 @@ impl<T> MutablePrimitiveArray<T> {
 	{ unimplemented!() }
 }
 
+// column `b` is column `a` followed only by nulls / only by `false` bits
+pub open spec fn col_ext_null<T>(a: Seq<Option<T>>, b: Seq<Option<T>>) -> bool {
+	&&& a.len() <= b.len()
+	&&& forall|i: int| 0 <= i < a.len() ==> #[trigger] b[i] == a[i]
+	&&& forall|i: int| a.len() <= i < b.len() ==> #[trigger] b[i] is None
+}
+pub open spec fn col_ext_false(a: Seq<bool>, b: Seq<bool>) -> bool {
+	&&& a.len() <= b.len()
+	&&& forall|i: int| 0 <= i < a.len() ==> #[trigger] b[i] == a[i]
+	&&& forall|i: int| a.len() <= i < b.len() ==> !#[trigger] b[i]
+}
 // arrow2::bitmap::MutableBitmap: abstract view = Seq<bool>
 pub struct MutableBitmap { pub v: Vec<bool> }
 impl MutableBitmap {
